@@ -1084,6 +1084,15 @@ class ConfigInformation:
         # Add predefined dependencies
         self.job.dependencies.update(self.dependencies)
 
+        # The output is computed before the job is registered: a duplicate
+        # submitted meanwhile (another thread) is answered with it
+        self.task = self.pyobject
+
+        if hasattr(self.pyobject, "task_outputs"):
+            self._taskoutput = self.pyobject.task_outputs(self.mark_output)
+        else:
+            self._taskoutput = self.task = self.pyobject
+
         run_mode = (
             workspace.run_mode if run_mode is None else run_mode
         ) or RunMode.NORMAL
@@ -1128,21 +1137,6 @@ class ConfigInformation:
                     cprint(f"   [Dependency] {dep}", color, file=sys.stderr)
 
                 print(file=sys.stderr)  # noqa: T201
-
-        # Handle an output configuration # FIXME: remove
-        def mark_output(config: "Config"):
-            """Sets a dependency on the job"""
-            assert not isinstance(config, Task), "Cannot set a dependency on a task"
-            config.__xpm__.task = self.pyobject
-            return config
-
-        # Mark this configuration also
-        self.task = self.pyobject
-
-        if hasattr(self.pyobject, "task_outputs"):
-            self._taskoutput = self.pyobject.task_outputs(self.mark_output)
-        else:
-            self._taskoutput = self.task = self.pyobject
 
         return self._taskoutput
 
